@@ -83,4 +83,47 @@ theorem same_file_detects_self (frm ff : Str) (hfn : fileName frm = some (ff ++ 
   simp only [isSameFile, hfn, ht1, ht2]
   simp
 
+
+theorem resolveLoop_dot_slash (fd : List Str) (ff : Str) (hffs : '/' ∉ ff) :
+    resolveLoop fd (splitChar '/' (['.', '/'] ++ ff ++ dotTs)) = some (fd ++ [ff ++ dotTs]) := by
+  have hs : '/' ∉ ff ++ dotTs := by simp [dotTs, hffs]
+  have h1 : splitChar '/' (['.', '/'] ++ ff ++ dotTs) = [['.'], ff ++ dotTs] := by
+    have := splitChar_single '/' (ff ++ dotTs) hs
+    simp only [List.cons_append, List.nil_append, splitChar, List.append_assoc] at this ⊢
+    simp [this]
+  have hne1 : ff ++ dotTs ≠ ['.'] := by
+    intro h; have := congrArg List.length h; simp [dotTs] at this
+  have hne2 : ff ++ dotTs ≠ ['.', '.'] := by
+    intro h; have := congrArg List.length h; simp [dotTs] at this
+  rw [h1]
+  simp [resolveLoop, hne1, hne2]
+
+/-- **the same with ES-module imports**: the specifier is `s'.js`; the test strips `.js` (repeatedly), so
+`s'` itself must not end in `.js` — for `import_path`'s result that is "the target's stem does not end in `.js`". -/
+theorem same_file_only_self_esm (fd A : List Str) (frm spec s' ff : Str)
+    (hfn : fileName frm = some (ff ++ dotTs))
+    (hffs : '/' ∉ ff) (hts : endsWith dotTs ff = false)
+    (hs : spec = s' ++ dotJs) (hs' : endsWith dotJs s' = false)
+    (hgood : specGood true fd A spec = true)
+    (hsame : isSameFile frm spec = true) :
+    A = fd ++ [ff ++ dotTs] := by
+  subst hs
+  simp only [specGood, Bool.and_eq_true] at hgood
+  obtain ⟨_, hres⟩ := hgood
+  have ht1 : trimEndMatches dotTs (ff ++ dotTs) = ff :=
+    trimEndMatches_once dotTs ff (by decide) (endsWith_false_strip _ _ hts)
+  have ht2 : trimEndMatches dotJs (s' ++ dotJs) = s' :=
+    trimEndMatches_once dotJs s' (by decide) (endsWith_false_strip _ _ hs')
+  simp only [isSameFile, hfn, ht1, ht2] at hsame
+  have hspec : s' = ['.', '/'] ++ ff := by
+    have : ['.', '/'] ++ ff = s' := by simpa using hsame
+    exact this.symm
+  subst hspec
+  have hss : stripSuffix dotJs (['.', '/'] ++ ff ++ dotJs) = some (['.', '/'] ++ ff) := by
+    simp [stripSuffix, List.reverse_append, stripPrefix_append]
+  simp only [resolve, if_true, hss, Option.map_some] at hres
+  rw [resolveLoop_dot_slash fd ff hffs] at hres
+  have : fd ++ [ff ++ dotTs] = A := by simpa using hres
+  exact this.symm
+
 end TsRs.Path
